@@ -70,12 +70,12 @@ def sol_kind(e, f, fi, selfs):
     return None
 
 
-def check_accessor(run, f, rule='R8', extra_objs=()):
+def check_accessor(run, f, rule='R8', extra_objs=(), skip_self=False):
     """extra_objs: parameter names that hold list-capable objects of the library as well (operands of an operator): their .A
     is single-or-list with respect to THEIR length"""
     fi = FuncInfo.of(f)
     prog = run.prog
-    selfs = ({f.selfname} if f.selfname else set()) | set(extra_objs)
+    selfs = ({f.selfname} if (f.selfname and not skip_self) else set()) | set(extra_objs)
     if not selfs:
         return
     s = f.selfname
@@ -123,6 +123,9 @@ def check_accessor(run, f, rule='R8', extra_objs=()):
         elif isinstance(par, ast.UnaryOp) and isinstance(par.op, ast.USub):
             use = 'array'
             what = 'negation ' + src(par, 50)
+        elif isinstance(par, ast.List) and any(el is x for el in par.elts):
+            use = 'array'
+            what = 'element of the list display ' + src(par, 40)
         elif isinstance(par, ast.comprehension) and par.iter is x:
             use = 'iter'
             what = 'iteration `for ... in %s`' % src(x, 40)
